@@ -46,7 +46,7 @@ Qed.
 
 Lemma apply_w_ext : forall c c' w, (forall k i, c k i = c' k i) -> forall k i, apply_w c w k i = apply_w c' w k i.
 Proof.
-  intros c c' w E k i. destruct w as [|k0 i0 ap stake acct|k0 i0 stake acct stat|k0 i0|k0 i0 lft]; cbn [apply_w];
+  intros c c' w E k i. destruct w as [|k0 i0 ap stake acct ws|k0 i0 stake acct stat|k0 i0|k0 i0 lft]; cbn [apply_w];
     try apply E; unfold updr; destruct (N.eqb k k0 && N.eqb i i0)%bool; try apply E; try reflexivity; now rewrite E.
 Qed.
 
@@ -62,14 +62,15 @@ Lemma run_tx_ext : forall e h t a b, st_eq a b ->
   st_eq (fst (run_tx e h t a)) (fst (run_tx e h t b)) /\ snd (run_tx e h t a) = snd (run_tx e h t b).
 Proof.
   intros e h t a b E. unfold run_tx, fee_step. pose proof E as (Hc & Ht & Hb & Hp & He & Hbu). rewrite Hb.
-  destruct (bal b (tx_src t) <? tx_fee); cbn [fst snd]; [split; [exact E|reflexivity]|].
-  pose proof (st_eq_set_bal a b (add_bal (fst (sub_bal (bal b) (tx_src t) tx_fee)) fee_account tx_fee) E) as E1.
+  destruct (bal b (tx_src t) <? tx_fee e); cbn [fst snd]; [split; [exact E|reflexivity]|].
+  pose proof (st_eq_set_bal a b (add_bal (fst (sub_bal (bal b) (tx_src t) (tx_fee e))) fee_account (tx_fee e)) E) as E1.
   destruct (execute_ext e h t _ _ E1) as [Es Er].
   destruct (execute e h t (set_bal a _)) as [a2 ra]. destruct (execute e h t (set_bal b _)) as [b2 rb].
   cbn [fst snd] in Es, Er. subst rb.
   destruct ra; cbn [fst snd]; try (split; [exact Es|reflexivity]); (split; [|reflexivity]);
-    destruct Es as (_ & _ & _ & Hp2 & _); destruct E1 as (G1 & G2 & G3 & G4 & G5 & G6);
-    unfold st_eq; cbn [cur trie bal pend esc burned]; repeat split; assumption.
+    destruct Es as (_ & _ & Hb2 & Hp2 & _); destruct E1 as (G1 & G2 & G3 & G4 & G5 & G6);
+    unfold st_eq; cbn [cur trie bal pend esc burned]; repeat split; try assumption;
+    (destruct (g002 (gates e)); assumption).
 Qed.
 
 Lemma run_txs_ext : forall e h ts a b, st_eq a b ->
@@ -148,7 +149,7 @@ Qed.
 
 Lemma apply_w_inv : forall st w, store_inv st -> store_inv (k_apply_w st w).
 Proof.
-  intros st w Hs. destruct w as [|k i ap stake acct|k i stake acct stat|k i|k i lft]; cbn [KeyModel.k_apply_w]; [exact Hs| | | |];
+  intros st w Hs. destruct w as [|k i ap stake acct [|]|k i stake acct [x|]|k i|k i lft]; cbn [KeyModel.k_apply_w]; try exact Hs;
     rewrite ?(k0_kf H idkey), ?(k1_kf H idkey), ?(k2_kf H idkey), ?(k3_kf H idkey); repeat (apply kupd_inv; [lia|cbn; auto|]); exact Hs.
 Qed.
 
@@ -179,7 +180,7 @@ Definition kst_inv (s : kst) : Prop := store_inv (kcur s).
 
 Lemma k_run_tx_inv_store : forall e h t s, kst_inv s -> kst_inv (fst (k_run_tx e h t s)).
 Proof.
-  intros e h t s Hs. unfold KeyModel.k_run_tx. destruct (kbal s (tx_src t) <? tx_fee); [exact Hs|].
+  intros e h t s Hs. unfold KeyModel.k_run_tx. destruct (kbal s (tx_src t) <? tx_fee e); [exact Hs|].
   unfold KeyModel.k_execute. cbn [fst snd kcur].
   match goal with |- context [o_res ?o] => destruct (o_res o) end; cbn [fst kcur kst_inv]; unfold kst_inv; cbn [kcur];
     try exact Hs; apply apply_w_inv, Hs.
@@ -236,19 +237,19 @@ Qed.
 Lemma boundary_ext : forall a b, st_eq a b -> boundary b -> boundary a.
 Proof. intros a b (Hc & Ht & _) Hb k i. now rewrite Ht, Hc. Qed.
 
-Theorem k_history_conservation : forall A I e bs W s, kst_inv s -> universe A I -> supply_bound (W + minted_chain bs) ->
+Theorem k_history_conservation : forall A I e bs W s, g002 (gates e) = true -> kst_inv s -> universe A I -> supply_bound (W + minted_chain bs) ->
   Forall (block_closed_led A I) bs -> led_inv A I W (view s) ->
   led_inv A I (W + minted_chain bs) (view (k_run_chain e bs s)).
 Proof.
-  intros A I e bs W s Hs HU HW Hcl Hinv. destruct (k_run_chain_sim e bs s Hs) as [_ E].
+  intros A I e bs W s G2 Hs HU HW Hcl Hinv. destruct (k_run_chain_sim e bs s Hs) as [_ E].
   apply (led_inv_ext _ _ _ _ _ E). apply run_chain_inv; assumption.
 Qed.
 
-Theorem k_history_stake : forall A I e bs W s i, kst_inv s -> universe A I -> supply_bound (W + minted_chain bs) ->
+Theorem k_history_stake : forall A I e bs W s i, g002 (gates e) = true -> kst_inv s -> universe A I -> supply_bound (W + minted_chain bs) ->
   Forall (block_closed_led A I) bs -> led_inv A I W (view s) ->
   stake_of (view (k_run_chain e bs s)) i = stake_of (view s) i + booked_chain e bs (view s) i.
 Proof.
-  intros A I e bs W s i Hs HU HW Hcl Hinv. destruct (k_run_chain_sim e bs s Hs) as [_ E].
+  intros A I e bs W s i G2 Hs HU HW Hcl Hinv. destruct (k_run_chain_sim e bs s Hs) as [_ E].
   rewrite (stake_of_ext _ _ i E). apply (run_chain_stake A I e bs W); assumption.
 Qed.
 
